@@ -183,6 +183,12 @@ impl Report {
     /// Record a violation.  `sig` groups violations of one kind; the witness
     /// with the smallest `order` is kept for the replay file.
     pub fn violation(&self, sig: &str, order: u64, witness: J, detail: String) {
+        // an installed annotator may qualify the signature and extend the witness (used by the
+        // template-reuse machinery to say "this result depends on the previous execution")
+        let (mut witness, mut detail) = (witness, detail);
+        let annotator = *ANNOTATOR.read().unwrap_or_else(|e| e.into_inner());
+        let qualified = annotator.and_then(|f| f(&mut witness, &mut detail)).map(|suffix| format!("{sig}|{suffix}"));
+        let sig = qualified.as_deref().unwrap_or(sig);
         let mut v = self.violations.lock().unwrap();
         match v.get_mut(sig) {
             Some(e) => {
@@ -265,6 +271,11 @@ impl Report {
 
     /// Writes evidence, prints verdict lines and returns the exit code.
     pub fn finish(&self) -> i32 {
+        if let Some(f) = *EXTRA_PROVIDER.read().unwrap_or_else(|e| e.into_inner()) {
+            for (k, v) in f() {
+                self.extra(&k, v);
+            }
+        }
         let wall = self.start.elapsed().as_secs_f64();
         let verif_dir = verif_dir();
         let known = load_known(&verif_dir);
@@ -402,6 +413,22 @@ impl Report {
             0
         }
     }
+}
+
+/// `fn(&mut witness, &mut detail) -> Option<signature suffix>`, consulted by every `violation`.
+pub type Annotator = fn(&mut J, &mut String) -> Option<String>;
+static ANNOTATOR: std::sync::RwLock<Option<Annotator>> = std::sync::RwLock::new(None);
+
+/// Extra evidence entries computed at `finish` time (e.g. template-reuse counters).
+pub type ExtraProvider = fn() -> Vec<(String, J)>;
+static EXTRA_PROVIDER: std::sync::RwLock<Option<ExtraProvider>> = std::sync::RwLock::new(None);
+
+pub fn set_extra_provider(f: Option<ExtraProvider>) {
+    *EXTRA_PROVIDER.write().unwrap_or_else(|e| e.into_inner()) = f;
+}
+
+pub fn set_violation_annotator(f: Option<Annotator>) {
+    *ANNOTATOR.write().unwrap_or_else(|e| e.into_inner()) = f;
 }
 
 pub fn verif_dir() -> String {
